@@ -49,9 +49,11 @@ STATES[11] = (False, STATES[9][1] + [('user', pdu.AReleaseRpPDU(), 2)], 3, 3, Tr
 NATURAL = {1: 2, 2: 5, 3: 5, 4: 6, 5: 6, 6: 7, 7: 6}
 
 
-def run_hostile(state, hostile):
+def run_hostile(state, hostile, how='close'):
+    """how='reset': the peer resets the connection right behind the hostile bytes - they can still be read, whatever the
+    provider then tries to write (its A-ABORT) fails"""
     acc, prefix, gate, nsent, indicated = STATES[state]
-    turns = list(prefix) + [('peer', hostile, gate), ('close', None, gate)]
+    turns = list(prefix) + [('peer', hostile, gate), (how, None, gate)]
     conv = prov.Conversation(turns, acceptor=acc, budget=80)
     conv.tick = 1
     tr = conv.run()
@@ -86,9 +88,10 @@ def aborted(state, conv, tr):
 
 
 @cond(bounds='every waiting state (2, 3, 5, 6, 7, 13, 6 with a half-received DIMSE message, and the release / release-collision states 8, 9, 10, 11, 12; one instance each): a PDU whose type byte is symbolic over all '
-             'unrecognised values (0, 8..255), with a symbolic reserved byte and a body of 0..6 bytes (symbolic length)',
+             'unrecognised values (0, 8..255), with a symbolic reserved byte and a body of 0..6 bytes (symbolic length); the peer then closes - or '
+             'has RESET the connection right behind that PDU (symbolic), so that the A-ABORT cannot be written: the user is still told, exactly once',
       family={'state': [2, 3, 5, 6, 7, 13, 60, 8, 9, 10, 11, 12]}, timeout=180)
-def unknown_type(t: int, r: int, n: int) -> bool:
+def unknown_type(t: int, r: int, n: int, reset: bool) -> bool:
     """
     pre: (t == 0 or 8 <= t <= 255) and 0 <= r <= 255 and 0 <= n <= 6
     post: _
@@ -96,6 +99,16 @@ def unknown_type(t: int, r: int, n: int) -> bool:
     n = pick(n, 0, 6)
     state = fam('state')
     hostile = bytes([t, r]) + n.to_bytes(4, 'big') + b'\x00' * n
+    if reset:
+        # the peer has reset the connection behind the offending PDU: the A-ABORT cannot be delivered any more, everything
+        # else must still happen - the loop survives, ends idle and closed, and the user is told the association is gone
+        conv, tr = run_hostile(state, hostile, 'reset')
+        ok = robust(state, conv, tr)
+        inds = [i[1] for i in tr.indications if i[0] == 'pdu']
+        if state in (3, 5, 6, 7, 60, 8, 9, 10, 11, 12):
+            ok = ok and len(inds) >= 1 and inds[-1] == 7 and inds.count(7) == 1
+        deep(ok and t == 0xFE and n == 2)
+        return ok
     conv, tr = run_hostile(state, hostile)
     ok = robust(state, conv, tr) and aborted(state, conv, tr)
     deep(ok and t == 0xFF and n == 3)
@@ -312,6 +325,8 @@ def _hostile_of(cname, args, famv):
 
 def explain(cname, args, famv):
     state, hostile = _hostile_of(cname, args, famv)
-    conv, tr = run_hostile(state, hostile)
-    return 'state Sta%d receives %s\n%r\nuser informed: %r; written after prefix: %r' % (
-        state, hostile[:40].hex(), tr, user_informed(tr, conv), written_after_prefix(state, tr))
+    reset = bool(args.get('reset'))
+    conv, tr = run_hostile(state, hostile, 'reset' if reset else 'close')
+    return 'state Sta%d receives %s%s\n%r\nuser informed: %r; written after prefix: %r' % (
+        state, hostile[:40].hex(), ', connection reset by the peer right behind it' if reset else '', tr,
+        user_informed(tr, conv), written_after_prefix(state, tr))
